@@ -336,7 +336,7 @@ def gen_cases(ctx):
     g = Gen(rnd)
     thorough = ctx.tier != "quick"
     cases = field_sweep(rnd) + all_perms_cases(rnd, thorough)
-    n = 30000 if thorough else 1500
+    n = 40000 if thorough else 2500
     for i in range(n):
         op = OPS[i % 4]
         wf = rnd.random() < 0.75
@@ -420,36 +420,44 @@ def add_request(c, r):
 def coq_case(c, r):
     q, _ = add_request(c, r)
     impl = "None" if q is None else "(Some (%d, %d, %s))" % (q["cmd"], q["flags"], clist([coq_attr(a) for a in q["attrs"]]))
-    return "(%d, %d, %s, %s, %s, %s)" % (OPS.index(c["op"]), c["seid"], clist([coq_ie(a) for a in r["abs"]]), impl,
-                                         cb(c.get("want_wf", False)), cb(bool(c.get("full"))))
+    raw = "[]" if q is None else cbytes(q["raw"])
+    return "(%d, %d, %s, %s, %s, %s, %s)" % (OPS.index(c["op"]), c["seid"], clist([coq_ie(a) for a in r["abs"]]), impl,
+                                             cb(c.get("want_wf", False)), cb(bool(c.get("full"))), raw)
 
 
 PRELUDE = r"""
 Definition link : N := %d.
-Definition tcase : Type := (N * N * list ie * option (N * N * list attr) * bool * bool)%%type.
+(* operation, SEID, abstract IEs, the implementation's ADD request (cmd, flags, tree as parsed by SimKernel), generated as
+   well-formed?, full-strength candidate?, the request's attribute octets as written on the simulated socket *)
+Definition tcase : Type := (N * N * list ie * option (N * N * list attr) * bool * bool * list N)%%type.
 Definition run_model (op seid : N) (ies : list ie) : result request :=
   if op =? 0 then create_pdr link seid ies else if op =? 1 then update_pdr link seid ies
   else if op =? 2 then create_far link seid ies else update_far link seid ies.
+(* model request = implementation request: command, flags, attribute tree, and at octet level: the model's tree serialised
+   like go-nl equals the octets on the wire, and those octets parse (Nlattr.parse) to the tree SimKernel reported *)
 Definition agrees (c : tcase) : bool :=
-  let '(op, seid, ies, impl, _, _) := c in
+  let '(op, seid, ies, impl, _, _, raw) := c in
   match run_model op seid ies, impl with
-  | Ok (cmd, fl, _, attrs), Some (cmd', fl', attrs') => (cmd =? cmd') && (fl =? fl') && attrs_eqb (map norm attrs) attrs'
+  | Ok (cmd, fl, _, attrs), Some (cmd', fl', attrs') =>
+      (cmd =? cmd') && (fl =? fl') && attrs_eqb (map norm attrs) attrs'
+      && list_N_eqb (ser_list attrs) raw
+      && match parse (S (List.length raw)) raw with Some t => attrs_eqb t attrs' | None => false end
   | Err, None => true
   | _, _ => false
   end.
 Definition is_wf (c : tcase) : bool :=
-  let '(op, _, ies, _, _, _) := c in
+  let '(op, _, ies, _, _, _, _) := c in
   if op <? 2 then wf_pdr ies else wf_far (op =? 3) ies.
 Definition req_ok (c : tcase) : bool :=
-  let '(op, seid, ies, impl, _, _) := c in
+  let '(op, seid, ies, impl, _, _, _) := c in
   match impl with
   | Some (cmd, fl, attrs) =>
       if op <? 2 then pdr_req_ok (op =? 0) link seid ies cmd fl attrs else far_req_ok (op =? 3) link seid ies cmd fl attrs
   | None => false
   end.
 Definition monitor (c : tcase) : bool := if is_wf c then req_ok c else true.
-Definition monitor_full (c : tcase) : bool := let '(_, _, _, _, _, full) := c in if full then req_ok c else true.
-Definition wf_as_wanted (c : tcase) : bool := let '(_, _, _, _, w, _) := c in if w then is_wf c else true.
+Definition monitor_full (c : tcase) : bool := let '(_, _, _, _, _, full, _) := c in if full then req_ok c else true.
+Definition wf_as_wanted (c : tcase) : bool := let '(_, _, _, _, w, _, _) := c in if w then is_wf c else true.
 Fixpoint bad_idx {X} (f : X -> bool) (l : list X) (i : N) : list N :=
   match l with [] => [] | x :: r => (if f x then [] else [i]) ++ bad_idx f r (i + 1) end.
 """ % LINK
